@@ -19,6 +19,7 @@ RULE = ("M: LandscapeNorms.tla -- exact rational segment integrals of |f|^p: add
         "||cP|| = |c| ||P||, triangle inequality for P-Q and P+Q, for p = 1..6 and the sup norm. Non-trivial = an object with a sign-crossing segment; distinct = (object, embedding).")
 PS = [1, 2, 3, 4, 5, 6]
 HALF = [1.5, 2.5, 3.5]
+LAW_REAL_PS = [1.5, 2.5]        # the laws need no oracle: real p takes part in the sessions for every kind of landscape
 
 
 def sq_cp(rng):
@@ -36,7 +37,7 @@ def sq_cp(rng):
 
 
 def gen_make(rng):
-    k = rng.choice(["dgm", "sub", "sub", "lin", "cp", "cp", "sqcp", "adgm", "avals", "asub"])
+    k = rng.choice(["dgm", "sub", "sub", "lin", "cp", "cp", "sqcp", "adgm", "avals", "asub", "sqavals"])
     if k == "dgm":
         # lazy: built with compute=False, so that a norm is the FIRST query on the object ('first': which one)
         return dict(t="dgm", bars=rand_bars(rng, 0, 14, rng.randint(1, 4)), lazy=int(rng.random() < 0.5), first=rng.choice(["p", "sup"]))
@@ -57,6 +58,11 @@ def gen_make(rng):
     if k == "sqcp":
         return dict(t="cp", cps=sq_cp(rng), squares=True)
     s = rng.choice([1, 2]); n = rng.randint(4, 9); a0 = rng.choice([0, 2])
+    if k == "sqavals":
+        # a GRID landscape (numpy values) whose ordinates are +- perfect squares: real p = 1.5, 2.5, 3.5 is decided there, incl. negative and
+        # sign-crossing segments held in numpy floats
+        sq = lambda: rng.choice([-1, 1]) * rng.randint(0, 4) ** 2
+        return dict(t="avals", vals=[[0] + [sq() for _ in range(n - 2)] + [0] for _ in range(rng.randint(1, 2))], grid=[a0, s, n], squares=True)
     if k == "adgm":
         bars = [[a0 + rng.randint(0, (n - 1) * s - 1), 0] for _ in range(rng.randint(1, 3))]
         for p in bars:
@@ -190,7 +196,7 @@ def session_cases(m, e, r):
         norms = [[p, 1] + obs_num(r["n"][obs].get(str(p)), lambda v, p=p: v ** p / (e.s ** p * e.s)) for p in PS]
         out.append(dict(kind="norms", obj=obj, q=q, lattice=1, norms=norms, sup=obs_num(r["sup"][obs], lambda v: v / e.s), session_part=obs))
     rows = []
-    for p in [0] + PS:
+    for p in [0] + PS + LAW_REAL_PS:
         get = (lambda nm: r["sup"].get(nm)) if p == 0 else (lambda nm, p=p: r["n"].get(nm, {}).get(str(p)))
         vals = [get(nm) for nm in ("P", "Q", "D", "E", "Z", "H", "S")]
         nums = [obs_num(v, lambda x: x) for v in vals]
@@ -199,7 +205,7 @@ def session_cases(m, e, r):
         N = max(fr[0], fr[1])
         if fin and N == 0:
             continue
-        rows.append([p, fin] + [fix(x / N) if fin else fix(0) for x in fr])
+        rows.append([p if isinstance(p, int) else int(10 * p), fin] + [fix(x / N) if fin else fix(0) for x in fr])      # real p is reported as 10 p (15 = 1.5)
     out.append(dict(kind="laws", c=m["c"], rows=rows))
     return out
 
@@ -208,7 +214,7 @@ def validate(ctx, makes, embs, label, nproc=12):
     jobs = []
     for m, e in zip(makes, embs):
         if m["t"] == "session":
-            jobs.append(dict(kind="session", a=to_float_make(m["a"], e), b=to_float_make(m["b"], e), c=m["c"], order=m["order"], rmul=m["rmul"], ps=PS))
+            jobs.append(dict(kind="session", a=to_float_make(m["a"], e), b=to_float_make(m["b"], e), c=m["c"], order=m["order"], rmul=m["rmul"], ps=PS + LAW_REAL_PS))
         elif m["t"] == "stab":
             jobs.append(dict(kind="stab", X=[[e.f(b), e.f(d)] for b, d in m["X"]], Y=[[e.f(b), e.f(d)] for b, d in m["Y"]]))
         else:
